@@ -72,4 +72,17 @@ CONTROLLER_FUNCS = {
     'evaluate_objective': dict(params={'x': 'vec', 'number_of_samples': 'Z'}, fixed_any=('params',),
                                ret='tup:mat|vec|Z|opt:exit', oracle=EVAL_ORACLE, locals={'exit_info': 'opt:exit'}),
     'reduce_rho': dict(params={'current_iter': 'Z'}, fixed_any=('params',), pkeys={'tr_radius.alpha1': 'T', 'tr_radius.alpha2': 'T'}),
+    # synthetic: choose_point_to_replace after its lagrange_gradient call (see gen.derive_chooser); cs, gs are the oracle's answer
+    'choose_point_loop': dict(params={'d': 'vec', 'skip_kopt': 'B', 'cs': 'vec', 'gs': 'mat'}, ret='opt:Z',
+                              locals={'scaden': 'opt:T', 'knew': 'opt:Z'}),
+}
+
+# ---------------------------------------------------------------- trust_region.py (the linear / geometry solvers over box and ball)
+TR_CONSTS = ('ZERO_THRESH',)
+TR_FUNCS = {
+    'ball_step': dict(toplevel=True, pure=True, params={'x0': 'vec', 'g': 'vec', 'Delta': 'T'}, ret='T'),
+    'trsbox_linear': dict(toplevel=True, params={'g': 'vec', 'a_in': 'vec', 'b_in': 'vec', 'Delta': 'T'}, fixed={'use_fortran': False}, ret='vec',
+                          locals={'cons_dirns': 'zvec', 'hit_upper': 'opt:B', 'idx_hit': 'opt:Z'}),
+    'trsbox_geometry': dict(toplevel=True, params={'xbase': 'vec', 'c': 'T', 'g': 'vec', 'lower': 'vec', 'upper': 'vec', 'Delta': 'T'},
+                            fixed={'use_fortran': False}, ret='vec'),
 }
